@@ -1,6 +1,7 @@
 package p
 
 import (
+	"bytes"
 	"encoding/binary"
 	"fmt"
 	"sort"
@@ -237,6 +238,27 @@ func First(s string) int {
 		return -1
 	}
 	return size
+}
+
+// Route: a selected `switch` stands for the number of the arm taken; nil tests on an interface value and on a slice
+// become parameters; bytes.Equal / bytes.Compare have a fixed meaning.
+func Route(code int, err error, seen []bool, a, b []byte) error {
+	switch code {
+	case 1, 2:
+		return err
+	case 7:
+		return nil
+	}
+	n := 0
+	if err != nil {
+		n++
+	} else if seen != nil {
+		seen[0] = bytes.Equal(a, b) || bytes.Compare(a, b) > 0
+	}
+	if n > 0 {
+		return err
+	}
+	return nil
 }
 
 // the following are outside the fragment
